@@ -44,7 +44,7 @@ func docRes(d TypeD, soft bool, id string, variant int) j.Resource {
 			r.Set("n", Ptr(int(variant)))
 		}
 		r.Set("one", []string{"u1", "", "u2"}[variant%3])
-		r.Set("many", [][]string{{"u2", "u1"}, {}, {"u3"}}[variant%3])
+		r.Set("many", [][]string{{"u2", "u1", "u\x01\x7f\U000E0001"}, {}, {"u3"}}[variant%3])
 	case "u":
 		r.Set("b", variant%2 == 0)
 		r.Set("back", [][]string{{"t1"}, {}}[variant%2])
